@@ -104,7 +104,7 @@ func genC19(c *Ctx) any {
 		cs.MalAt = []int{0, nrec / 2, nrec - 1}[r.Intn(3)]
 	}
 	if r.Chance(1, 4) {
-		cs.Present = []string{"empty", "index", "garbage"}[r.Intn(3)]
+		cs.Present = []string{"empty", "index", "garbage", "symlink-dangling", "symlink-file", "directory"}[r.Intn(6)]
 	} else if cs.Malform == "" && r.Chance(1, 6) {
 		cs.PriorKill = r.Range(300, 990)
 		cs.PriorRecords = r.Range(1100, 2600)
@@ -248,14 +248,42 @@ func presetFile(c *Ctx, path, kind string) error {
 	case "index":
 		_, err := BuildIndex("mem-file", path, []Row{{{"p", "q"}}, {{"p", "r"}}})
 		return err
+	case "symlink-dangling":
+		return os.Symlink(path+".target-that-does-not-exist", path)
+	case "symlink-file":
+		if err := os.WriteFile(path+".linked", []byte("linked file\n"), 0o644); err != nil {
+			return err
+		}
+		return os.Symlink(path+".linked", path)
+	case "directory":
+		return os.Mkdir(path, 0o755)
 	}
 	return nil
+}
+
+// presetSide: what else must be unchanged besides the path itself (the target of a link).
+func presetSide(path, kind string) string {
+	switch kind {
+	case "symlink-dangling":
+		return statSig(path + ".target-that-does-not-exist")
+	case "symlink-file":
+		return statSig(path + ".linked")
+	}
+	return ""
 }
 
 func statSig(path string) string {
 	st, err := os.Lstat(path)
 	if err != nil {
 		return "absent"
+	}
+	if st.Mode()&os.ModeSymlink != 0 {
+		l, _ := os.Readlink(path)
+		return fmt.Sprintf("symlink->%s mode=%v", l, st.Mode())
+	}
+	if st.IsDir() {
+		ents, _ := os.ReadDir(path)
+		return fmt.Sprintf("dir entries=%d mode=%v", len(ents), st.Mode())
 	}
 	return fmt.Sprintf("%s size=%d mode=%v", fileSHA(path), st.Size(), st.Mode())
 }
@@ -352,7 +380,7 @@ func runC19(c *Ctx, body json.RawMessage) *Verdict {
 				v.Count("fault_prior_run_killed", 1)
 			}
 		}
-		before := statSig(out)
+		before := statSig(out) + presetSide(out, cs.Present)
 		args := []string{"create", "-o", out, in}
 		if mode == "big" {
 			args = []string{"create", "-b", "-o", out, in}
@@ -369,8 +397,8 @@ func runC19(c *Ctx, body json.RawMessage) *Verdict {
 			if code == 0 {
 				return v.Violate("existing-output-accepted", "`updog %s` exited 0 although the output file already exists (%s)", strings.Join(args[:len(args)-2], " "), cs.Present)
 			}
-			if after := statSig(out); after != before {
-				return v.Violate("existing-output-touched", "`updog create` (%s mode) changed an existing output file (%s): %s -> %s", mode, cs.Present, before, after)
+			if after := statSig(out) + presetSide(out, cs.Present); after != before {
+				return v.Violate("existing-output-touched", "`updog create` (%s mode) changed an existing output (%s) or wrote through it: %s -> %s", mode, cs.Present, before, after)
 			}
 			v.Count("probe_existing_output", 1)
 			continue
@@ -381,6 +409,14 @@ func runC19(c *Ctx, body json.RawMessage) *Verdict {
 			}
 			v.Count("probe_malformed_csv", 1)
 			continue
+		}
+		if code != 0 && cs.PriorKill > 0 {
+			// after a killed earlier run the statement does not promise success: refusing (and
+			// leaving no output) is clean; what must never happen is a wrong index
+			if _, err := os.Lstat(out); err != nil {
+				v.Count("rerun_refused_after_killed_run", 1)
+				continue
+			}
 		}
 		if code != 0 {
 			return v.Violate("create-failed", "`updog create` (%s mode) exited %d on a well-formed CSV:\n%s", mode, code, clipStr(outText, 1500))
@@ -462,7 +498,7 @@ func genC16(c *Ctx) any {
 		cs.Data.Spec.N = r.Range(1200, 2500)
 		cs.Data.Spec.Cols = append(cs.Data.Spec.Cols, ColSpec{Name: "wide", Card: r.Range(1001, 2200), Shape: "uniform", Kind: "num"})
 	}
-	cs.Present = []string{"empty", "index", "garbage", "readonly"}[r.Intn(4)]
+	cs.Present = []string{"empty", "index", "garbage", "readonly", "symlink-dangling", "symlink-file", "directory"}[r.Intn(7)]
 	cs.Writer = []string{"flush", "flush", "cli", "cli-big"}[r.Intn(4)]
 	for i, n := 0, r.Range(1, 3); i < n; i++ {
 		cs.Opens = append(cs.Opens, genOpenCfg(r, true))
@@ -491,7 +527,7 @@ func runC16(c *Ctx, body json.RawMessage) *Verdict {
 	if err := presetFile(c, out, cs.Present); err != nil {
 		return v.Harness("preset: %v", err)
 	}
-	before := statSig(out)
+	before := statSig(out) + presetSide(out, cs.Present)
 	switch cs.Writer {
 	case "flush":
 		w := updog.NewIndexWriter(out)
@@ -537,8 +573,8 @@ func runC16(c *Ctx, body json.RawMessage) *Verdict {
 		}
 		v.Count("cli_invocations", 1)
 	}
-	if after := statSig(out); after != before {
-		return v.Violate("existing-output-touched", "writer %s changed the pre-existing file (%s): %s -> %s", cs.Writer, cs.Present, before, after)
+	if after := statSig(out) + presetSide(out, cs.Present); after != before {
+		return v.Violate("existing-output-touched", "writer %s changed the pre-existing output (%s) or wrote through it: %s -> %s", cs.Writer, cs.Present, before, after)
 	}
 	v.Count("fault_preexisting_"+cs.Present, 1)
 	_ = os.Chmod(out, 0o644)
